@@ -1,3 +1,4 @@
 import ArroyProofs.AuditCmd
 import ArroyProofs.Properties.C16
+import ArroyProofs.Properties.C16Codec
 #audit Arroy.C16
